@@ -15,3 +15,23 @@ pub fn new_raft_membership<T: TypeConfig>(
 ) -> (RaftMembership<T>, tokio::sync::mpsc::Receiver<u32>) {
     RaftMembership::new(node_id, initial_nodes, config)
 }
+
+// ---------------------------------------------------------------------------------------------
+// Crash points: no-ops unless a harness installed a callback. The callback typically copies the
+// engine's directory, which is exactly what a process crash at that instant would leave behind.
+// ---------------------------------------------------------------------------------------------
+
+type CrashHook = std::sync::Arc<dyn Fn(&'static str) + Send + Sync>;
+static CRASH_HOOK: std::sync::Mutex<Option<CrashHook>> = std::sync::Mutex::new(None);
+
+pub fn set_crash_hook(hook: Option<CrashHook>) {
+    *CRASH_HOOK.lock().unwrap() = hook;
+}
+
+#[inline]
+pub fn crash_point(label: &'static str) {
+    let hook = CRASH_HOOK.lock().unwrap().clone();
+    if let Some(h) = hook {
+        h(label);
+    }
+}
